@@ -195,9 +195,9 @@ def judge(scn, want_text=True):
     fails = []
     tag = f"blk={int(blocked)}"
     if cout.kind != "stop" or len(cout.items) != len(stored):
-        fails.append({"oracle": "C10.control.clean_file_reads_back",
-                      "detail": f"the fault-free file did not read back ({cout.kind}, {len(cout.items)} of {len(stored)})",
-                      "sig": f"C10.control.clean_file_reads_back|{cout.kind}"})
+        # the fault-free file itself does not read back: that is C03 / C05 / C06's business; without a
+        # control there is nothing for C10 to judge
+        info["kind"] = "no_control"
         return fails, info
     if out.kind == "budget":
         return fails, info  # C07's verdict, not C10's
